@@ -88,8 +88,10 @@ Record WF (s : W) : Prop := {
        (exists i m k l, nth_error (a_reltabs a) i = Some m /\ afind k m = Some l /\ In tid l) \/
        (exists k l, afind k (a_tgttabs a) = Some l /\ In tid l)) ->
       exists t, nth_error (w_tables s) tid = Some t /\ t_arch t = aid;
+  (* an archetype without relation components has at most one table (it can be missing only after a
+     creation that panicked between createArchetype and createTable; the next use creates it) *)
   wf_arch_norel_table : forall aid a, nth_error (w_archs s) aid = Some a -> a_numrel a = 0 ->
-      exists tid, a_tables a = [tid];
+      length (a_tables a) <= 1;
   wf_arch0 : exists a0, nth_error (w_archs s) 0 = Some a0 /\ a_mask a0 = 0%N /\
              exists t0, nth_error (w_tables s) 0 = Some t0 /\ t_arch t0 = 0;
   wf_index_lists : length (w_compindex s) = length (w_reg s) /\ length (w_archcount s) = length (w_reg s) /\
@@ -136,3 +138,56 @@ Definition same_rows (s s' : W) : Prop :=
 Definition obs_eq (s s' : W) : Prop :=
   forall e, (present s e -> present s' e) /\ (present s e -> comps_of s' e = comps_of s e /\
             (forall c, value_of s' e c = value_of s e c) /\ (forall c, target_of s' e c = target_of s e c)).
+
+(** ** The relation-free tier
+
+    [NoRel s]: no relation component is registered. Then no table is ever freed or recycled, every
+    archetype has at most one table, and the relation lookups stay empty. The storage theorems of
+    StorageA/B/C are proved for all histories of such worlds; worlds with relation components are
+    covered by the correspondence streams (and need the exactness of the relation lookups as an
+    additional invariant). *)
+Definition NoRel (s : W) : Prop :=
+  (forall c, ck_rel (kind_of s c) = false) /\
+  (forall tid t, nth_error (w_tables s) tid = Some t -> t_rels t = [] /\ t_free t = false) /\
+  (forall aid a, nth_error (w_archs s) aid = Some a ->
+     a_free a = [] /\ a_numrel a = 0 /\ a_tgttabs a = [] /\
+     Forall (fun m : list (nat * list nat)%type => m = []) (a_reltabs a)) /\
+  w_relarchs s = [].
+
+Definition St (s : W) : Prop := WF s /\ NoRel s.
+
+(** ** Abstraction: what the world contains
+
+    [abs s e]: the components of [e] with their values, in ascending component order, if [e] is the
+    current incarnation of an entity; [None] otherwise. This is the Spec-level state: a finite map
+    from handles to component/value lists. *)
+Definition abs (s : W) (e : ent) : option (list (nat * Z)) :=
+  match loc s e with
+  | Some (tid, r) =>
+      match nth_error (w_tables s) tid with
+      | Some t =>
+          if (Nat.ltb r (t_len t) && ent_eqb (row_ent t r) e)%bool
+          then Some (map (fun ci => (nth ci (t_ids t) 0, cell t ci r)) (seq 0 (length (t_ids t))))
+          else None
+      | None => None
+      end
+  | None => None
+  end.
+
+(** What the user-side and bookkeeping parts of the state an entity operation must not touch. *)
+Definition frame_user (s s' : W) : Prop :=
+  w_reg s' = w_reg s /\ w_cfg s' = w_cfg s /\ w_filters s' = w_filters s /\ w_queries s' = w_queries s /\ w_issued s' = w_issued s /\ w_res s' = w_res s.
+
+(** Spec-level component lists. *)
+Definition zero_comps (ids : list nat) : list (nat * Z) := map (fun c => (c, 0%Z)) ids.
+Definition set_comp (c : nat) (v : Z) (l : list (nat * Z)) : list (nat * Z) :=
+  map (fun cv => if Nat.eqb (fst cv) c then (c, v) else cv) l.
+Definition drop_comps (rem : list nat) (l : list (nat * Z)) : list (nat * Z) :=
+  filter (fun cv => negb (memb (fst cv) rem)) l.
+(** insert [c] with value 0 keeping ascending order *)
+Fixpoint insert_comp (c : nat) (l : list (nat * Z)) : list (nat * Z) :=
+  match l with
+  | [] => [(c, 0%Z)]
+  | cv :: t => if Nat.ltb c (fst cv) then (c, 0%Z) :: cv :: t else cv :: insert_comp c t
+  end.
+Definition add_comps (add : list nat) (l : list (nat * Z)) : list (nat * Z) := fold_left (fun l c => insert_comp c l) add l.
